@@ -1,5 +1,6 @@
 """C12 -- StoG workflow steps equal the library primitives and are history-independent."""
 import itertools
+import math
 
 import numpy as np
 
@@ -9,11 +10,12 @@ from . import stoglib as SL
 
 ID = "C12"
 CHECKER = "chk_step"
-THEOREMS = ['C12_transform_is_library_call', 'C12_transform_table', 'C12_filter_is_library_call', 'C12_filter_table', 'C12_filter_autotransforms', 'C12_merged_curves_never_modified', 'C12_merged_curves_never_modified_any', 'C12_transform_history_independent', 'C12_filter_history_independent', 'C12_step_idempotent', 'C12_lorch_is_library_call', 'C12_keen_fq_is_conversion', 'C12_keen_gr_is_conversion', 'C12_keen_gr_formulas', 'C12_stored_curves_are_functions_of_merged', 'C12g_transform_is_library_call', 'C12g_filter_autotransforms', 'C12g_merged_curves_never_modified', 'C12g_merged_curves_never_modified_any', 'C12g_transform_history_independent', 'C12g_filter_history_independent', 'C12g_step_idempotent', 'C12g_cli_is_a_workflow_run', 'C12g_filter_history_independent_binary64', 'C12g_cli_is_a_workflow_run_binary64']
+THEOREMS = ['C12_transform_is_library_call', 'C12_transform_table', 'C12_filter_is_library_call', 'C12_filter_table', 'C12_filter_autotransforms', 'C12_merged_curves_never_modified', 'C12_merged_curves_never_modified_any', 'C12_transform_history_independent', 'C12_filter_history_independent', 'C12_step_idempotent', 'C12_lorch_is_library_call', 'C12_keen_fq_is_conversion', 'C12_keen_gr_is_conversion', 'C12_keen_gr_formulas', 'C12_stored_curves_are_functions_of_merged', 'C12g_transform_is_library_call', 'C12g_filter_autotransforms', 'C12g_merged_curves_never_modified', 'C12g_merged_curves_never_modified_any', 'C12g_transform_history_independent', 'C12g_filter_history_independent', 'C12g_step_idempotent', 'C12g_cli_is_a_workflow_run', 'C12g_filter_history_independent_binary64', 'C12g_cli_is_a_workflow_run_binary64', 'C12_lowr_get_is_library_call', 'C12_lowr_square_is_sum_of_squares', 'C12_lowr_homogeneous', 'C12_lowr_zero_iff_curve_vanishes_below_limit', 'C12_lowr_ignores_points_beyond_limit', 'C12_lowr_monotone_in_limit', 'C12_lowr_whole_curve', 'C12_lowr_empty_window']
 RULE = ("merged S(Q) data x three real-space functions x omitted-range option on/off x every legal op sequence up to length 3 (quick; sampled "
         "to 5 in thorough) over transform_merged / fourier_filter / apply_lorch / Keen F(Q) / Keen G(r) with arguments taken from the merged or "
         "filtered curves; every executed step is one correspondence case from the implementation's own pre-state; non-trivial = the step "
-        "stores a curve that is not identically 0/1; distinct by input hash")
+        "stores a curve that is not identically 0/1; distinct by input hash; after every sequence the low-r mean square is evaluated through the "
+        "instance (stored curve, default limit) and directly with limits on / between / below the grid points (Exec.chk_lowr)")
 OPS = ["T", "F", "L:m", "L:f", "L:c", "KF:m", "KF:f", "KG:m", "KG:f", "KG:l"]   # L:c = Lorch step on an r vector of the caller's own
 TITLES = ["sq", "qsq", "ft", "sqft", "fq", "gr", "grft", "grl", "gk"]
 
@@ -192,7 +194,27 @@ def run_impl(pystog, case):
             code = 4
         steps.append({"op": o, "code": code, "args": args, "pre": pre, "post": snapshot(st),
                       "ret": [np.asarray(a, float).tolist() for a in ret]})
-    return {"steps": steps}
+    return {"steps": steps, "lowr": run_lowr(st, case)}
+
+
+def run_lowr(st, case):
+    """the low-r cost function on the state the sequence left behind: through the instance (stored curve, own r grid, default limit) when a
+    real-space curve is stored, and directly with a limit that hits a grid point exactly (closed bound) or falls between two"""
+    pre = snapshot(st)
+    dr = np.asarray(st.dr, float)
+    out = []
+    if st.gr_title in st.gr_master and len(st.gr_master[st.gr_title]) == len(dr):
+        g = np.asarray(st.gr_master[st.gr_title], float)
+        out.append({"r": dr.tolist(), "g": g.tolist(), "limit": 1.01, "default": 1, "value": float(st._get_lowR_mean_square())})
+    else:
+        g = np.array([np.sin(7.0 * v) - 0.3 for v in dr])
+    k = len(case["q"]) % len(dr)
+    step = float(dr[1] - dr[0])
+    for limit in (float(dr[k]), float(dr[k]) + 0.5 * step, float(dr[0]) - 0.5 * step):
+        out.append({"r": dr.tolist(), "g": g.tolist(), "limit": limit, "default": 0,
+                    "value": float(st._lowR_mean_square(np.array(dr), np.array(g), limit))})
+    out.append({"r": dr.tolist(), "g": g.tolist(), "limit": 1.01, "default": 0, "value": float(st._lowR_mean_square(np.array(dr), np.array(g)))})
+    return {"calls": out, "state_unchanged": pre == snapshot(st)}
 
 
 def to_coq(case, res):
@@ -208,6 +230,8 @@ def to_coq(case, res):
         fl += s["ret"] + [[]] * (4 - len(s["ret"]))
         zs = [case["fn"], 1 if case["lowq"] else 0, s["code"]] + [0 if c is None else 1 for c in s["pre"]] + [0 if c is None else 1 for c in s["post"]]
         encs.append(("chk_step", (fl, [m["rho"], m["bcoh"], m["btot"], case["cutoff"]], zs, [])))
+    for c in res.get("lowr", {}).get("calls", []):
+        encs.append(("chk_lowr", ([c["r"], c["g"]], [c["limit"]], [c["default"]], [[c["value"]]])))
     return encs
 
 
@@ -279,4 +303,13 @@ def oracle(pystog, case, res):
             gk = a[1] if fn == "GK" else getattr(cv, fn + "_to_GK")(a[0], a[1], **{"rho": m["rho"], "<b_coh>^2": m["bcoh"]})[0]
             if not same(post[8][1], gk):
                 return "step %d: Keen G(r) is not the conversion of the curve" % i
+    lr = res.get("lowr")
+    if lr:
+        if not lr["state_unchanged"]:
+            return "evaluating the low-r mean square changed a stored curve (after %s)" % " ".join(case["ops"])
+        for c in lr["calls"]:
+            want = math.sqrt(math.fsum(y * y for x, y in zip(c["r"], c["g"]) if x <= c["limit"]))
+            if not abs(c["value"] - want) <= 1e-12 * max(1.0, want):
+                return "low-r mean square (%s, limit %r) is %r, the norm of the points with r <= limit is %r (after %s)" % (
+                    "through the instance" if c["default"] else "direct call", c["limit"], c["value"], want, " ".join(case["ops"]))
     return None
